@@ -16,6 +16,7 @@ from typing import Iterator, Mapping, Any, List, Optional, Callable
 from spil import Sid
 from spil.sid.read.util import first
 from spil.sid.read.tools import unfold_search
+from spil.sid.read.unfolders.extensions import extensions
 
 
 class Getter:
@@ -89,9 +90,9 @@ class Getter:
             Iterator over Mappings containing the retrieved data.
             One special field named "sid" contains the Sid
         """
-        # shortcut if Sid is not a search
+        # shortcut if Sid is not a search (an extension alias still needs unfolding)
         sid = Sid(search_sid)
-        if sid and not sid.is_search():
+        if sid and not sid.is_search() and extensions(str(sid)) == str(sid):
             generator = self.do_get([sid], attributes=attributes, sid_encode=sid_encode)
         else:
             search_sids = unfold_search(search_sid)
